@@ -8,7 +8,15 @@ for f in sorted(glob.glob(os.path.join(ROOT, "seeded", "*", "meta.json"))):
     ran = sorted(m.get("checks", {}))
     caught = m.get("caught_by", [])
     tgt = m["property"]
-    rows.append((name, tgt, "yes" if tgt in caught else "NO", " ".join(caught) or "-", len(ran), m.get("needs", ""), m.get("summary", "")))
+    notes = os.path.join(os.path.dirname(f), "agent_notes.md")
+    summ = ""
+    if os.path.exists(notes):
+        txt = open(notes, errors="replace").read()
+        letter = name.split("_")[-1]
+        import re
+        mm = re.search(r"(?im)^#+\s*(?:change\s*)?" + letter + r"\b[^\n]*", txt) or re.search(r"(?im)^\**\s*change\s*" + letter + r"\b[^\n]*", txt)
+        summ = (mm.group(0).strip("#* ").strip() if mm else "")[:160]
+    rows.append((name, tgt, "yes" if tgt in caught else "NO", " ".join(caught) or "-", len(ran), "", summ))
 with open(os.path.join(ROOT, "seeded", "RESULTS.md"), "w") as out:
     out.write("# Seeded changes written by independent sub-agents (each confirmed: repo tests pass, demo fails with / passes without)\n\n")
     out.write("| change | breaks | caught by its property's check | all quick checks that report a VIOLATION | checks run | what it is / what it needs to manifest |\n|---|---|---|---|---|---|\n")
